@@ -11,6 +11,7 @@ import (
 	"strings"
 	"sync"
 	"syscall"
+	"time"
 
 	"verif/core"
 	"verif/ref/irjs"
@@ -304,6 +305,14 @@ func (pl *pool) runTasks(r *core.Run, tasks []task, sliceName func(t task) strin
 		pl.children = make([]*child, r.Workers)
 	}
 	var mu sync.Mutex
+	stoppedEarly := false
+	defer func() {
+		if stoppedEarly {
+			for !r.Expired() { // record the cap truthfully (a few seconds at most)
+				time.Sleep(20 * time.Millisecond)
+			}
+		}
+	}()
 	queue := append([]task(nil), tasks...)
 	complete := true
 	next := func() (task, bool) {
@@ -312,8 +321,10 @@ func (pl *pool) runTasks(r *core.Run, tasks []task, sliceName func(t task) strin
 		if len(queue) == 0 {
 			return task{}, false
 		}
-		if r.Expired() {
+		if r.Expired() || time.Until(r.Deadline) < 3500*time.Millisecond {
+			// a task takes 1-2 s: stop handing out work shortly before the deadline
 			complete = false
+			stoppedEarly = true
 			queue = nil
 			return task{}, false
 		}
@@ -480,6 +491,9 @@ func run(r *core.Run) {
 		bounds["corpus"] = "cut by the deadline"
 	} else {
 		bounds["corpus"] = fmt.Sprintf("%d fixed programs x all placements x modes x single rewrites", len(corpus))
+		if r.Thorough() {
+			bounds["corpus"] = fmt.Sprintf("%d fixed programs x all placements x modes x single rewrites and rewrite pairs", len(corpus))
+		}
 	}
 
 	// 2. grammar slices, by increasing size across all slices
@@ -512,7 +526,7 @@ sizes:
 			if r.Thorough() && n <= s.pairN {
 				c = "pairs"
 			}
-			chunk := int64(16)
+			chunk := int64(8)
 			if c == "pairs" {
 				chunk = 2
 			}
